@@ -112,6 +112,12 @@ func checkC01(c *hx.Ctx) {
 			}
 		}
 		pc := hx.NewClient(hx.NewVersion(p, hx.VersionOpts{ParserOpts: hx.StrictResolution()}))
+		if i%4 == 1 {
+			// every operation is stamped with version 0; a stricter version becomes current in the middle of the history and
+			// must not be consulted for them
+			pc = hx.NewClientWithTrap(hx.NewVersion(p, hx.VersionOpts{ParserOpts: hx.StrictResolution()}), 1010)
+			c.Count("histories_crossing_the_genesis_of_a_stricter_version")
+		}
 		c.Eval()
 		rmL, errL := SUTResolve(pc, ch.U.Suffix, L, r.Perm(len(L)))
 		all := append(append([]*ref.Op{}, L...), F...)
@@ -230,6 +236,7 @@ func checkC01(c *hx.Ctx) {
 		}
 	})
 	c.Floor("exhaustive_placements", 5000)
+	c.Floor("histories_crossing_the_genesis_of_a_stricter_version", 100)
 	c.Floor("forged:e-create-other-delta", 1)
 	c.Floor("forged:d-deact-reveal-mismatch", 1)
 	c.Floor("forged:b-upd-tampered", 1)
